@@ -62,6 +62,18 @@ Theorem C10_zero_skip_through_call_refuted :
          (VStruct [VNil]) (VStruct [VPtr 7 (VBasic 1)]) 10 = Done (VStruct [VNil], 10).
 Proof. exact zero_skip_through_call_refuted. Qed.
 
+(* the frame, for the whole target struct at once: every skipped position keeps its previous value and the struct keeps
+   its shape; every guarded position whose selected source part is the zero value keeps its previous value *)
+Theorem C10_frame : forall ev ea fs src olds st rs st',
+  each_field ev ea fs src olds st = Done (rs, st') ->
+  length rs = length olds /\ forall i, nth_error fs i = Some FSkip -> nth_error rs i = nth_error olds i.
+Proof. exact each_field_frame. Qed.
+Theorem C10_frame_zero_valued : forall ev ea fs src olds st rs st',
+  each_field ev ea fs src olds st = Done (rs, st') ->
+  forall i nm sel a s, nth_error fs i = Some (FAssign nm sel true a) -> eval_sel sel src = Some s -> is_zero s = true ->
+    nth_error rs i = nth_error olds i.
+Proof. exact each_field_frame_zero. Qed.
+
 Print Assumptions C10_nil_source_pointer_noop.
 Print Assumptions C10_skipped_field_keeps_value.
 Print Assumptions C10_zero_guard_keeps_value.
@@ -75,3 +87,5 @@ Print Assumptions C10_zero_check_nothing_selected.
 Print Assumptions C10_inline_pointer_nil_keeps.
 Print Assumptions C10_inline_slice_nil_keeps.
 Print Assumptions C10_zero_skip_through_call_refuted.
+Print Assumptions C10_frame.
+Print Assumptions C10_frame_zero_valued.
